@@ -41,6 +41,8 @@ func main() {
 	switch fam {
 	case "plan":
 		stats = famPlan(tr, *scratch, *seed, *tier, *workers)
+	case "repro":
+		stats = famRepro(tr, *scratch, *seed, *tier, *nfpmBin)
 	case "fault":
 		stats = famFault(tr, *scratch, *seed, *tier, *workers, *repo, *nfpmBin)
 	case "config":
